@@ -48,6 +48,25 @@ impl Exec {
         Ok(estimates)
     }
 
+    /// At the instant now == deadline (clock frozen, sweeper parked): if the cache answers get(k) with the value it
+    /// considers the key readable at this instant, and a put of k at the same instant must be Rejected(KeyAlreadyExists).
+    fn probe_put_on_deadline(&mut self, k: u8) -> Check {
+        let key = k as u64;
+        let got = self.call("get", |cache| cache.get(&key))?;
+        self.settle_read(ReadKind::Get, k, got)?;
+        if got.is_none() || !self.model.held.contains_key(&k) { return Ok(()); }
+        let value = self.next_token(k);
+        let what = format!("put(k={}, w=7) at the instant now == deadline", k);
+        let result = self.call(&what, |cache| cache.put_with_weight(key, value, 7))?;
+        let ack = self.unwrap_send(result, &what)?;
+        self.keep_alive.push(ack.clone());
+        self.stats.writes += 1;
+        let status = match poll_once(&ack, &noop_waker()) { Some(status) => St::from(status), None => self.wait_ack(&ack, &what)? };
+        ensure!(status == St::RejExists, "C07", "C07/put-on-readable", "{}: get({}) returned the value at this very instant (the cache serves the key), yet the put was answered {:?} instead of Rejected(KeyAlreadyExists)", what, k, status);
+        self.stats.rejected_exists += 1;
+        Ok(())
+    }
+
     fn describe(cmd: &Pending) -> String {
         match cmd {
             Pending::Put { k, weight, ttl, .. } => format!("put(k={}, w={}, ttl={:?})", k, weight, ttl),
@@ -483,6 +502,17 @@ impl Exec {
                     Some(deadline) if deadline > self.model.now + Duration::from_nanos(1) && deadline.as_nanos() < (u64::MAX / 2 - 10) as u128 => {
                         for offset in 0..3u64 {
                             let target = deadline - Duration::from_nanos(1) + Duration::from_nanos(offset);
+                            if offset == 1 && self.cfg.tick_us <= 100_000 {
+                                // exactly on the deadline, sweeper parked, clock frozen: reads may answer either way (adopted),
+                                // but the cache must agree with itself: if it still serves the key, a put must be refused
+                                self.hold_sweeper();
+                                self.model.now = target;
+                                self.clock.set(target.as_nanos() as u64);
+                                self.stats.advances += 1;
+                                for kind in READ_KINDS { self.exec_read(kind, &[*k])?; }
+                                self.probe_put_on_deadline(*k)?;
+                                continue;
+                            }
                             self.advance_to(target)?;
                             self.quiescent_checks("C10")?;
                             for kind in READ_KINDS { self.exec_read(kind, &[*k])?; }
